@@ -13,40 +13,22 @@ Definition sched_fin (t : list N) (d : list Z) : res (list N * list Z) :=
   else if negb (Z.eqb (Z.of_nat (length t)) (Z.of_nat (length d))) then Err
   else Ok (t, d).
 
-(* the second loop writes delays[i] = mult * (i+1) into a slice of the right length: no index is out of range *)
-Lemma gen_schedule_loop2_spec : forall mult t n i d,
-  (0 <= i)%Z -> Z.of_nat (length d) = (i + Z.of_nat n)%Z ->
-  gen_schedule_loop2 mult t n i d = sched_fin t (firstn (Z.to_nat i) d ++ delays_from mult (i + 1) n).
-Proof.
-  intros mult t. induction n as [|n IH]; intros i d Hi Hlen; gen_step gen_schedule_loop2; cbn [delays_from].
-  - rewrite app_nil_r, firstn_all2 by lia. reflexivity.
-  - rewrite slice_set_spec by lia.
-    set (k := Z.to_nat i).
-    (* the value written at position i, however the product is spelled *)
-    match goal with |- context [firstn k d ++ ?x :: skipn (S k) d] => set (v := x) end.
-    assert (Hv : v = (mult * (i + 1))%Z) by (unfold v; lia).
-    assert (Hk : (k < length d)%nat) by (unfold k; lia).
-    assert (Hfk : length (firstn k d) = k) by (apply firstn_length_le; lia).
-    rewrite IH; [|lia|].
-    + replace (Z.to_nat (i + 1)) with (S k) by (unfold k; lia).
-      rewrite firstn_app, Hfk, (firstn_all2 (firstn k d)) by lia.
-      replace (S k - k)%nat with 1%nat by lia. cbn [firstn].
-      rewrite <- app_assoc, Hv. reflexivity.
-    + rewrite app_length, Hfk. cbn [length]. rewrite skipn_length. lia.
-Qed.
-
 Definition sched_done (mult : Z) (t : list N) : res (list N * list Z) :=
   match t with [] => Err | _ => Ok (t, delays mult (length t)) end.
 
-Lemma gen_schedule_rest_spec : forall mult t,
-  let d := repeat 0%Z (Z.to_nat (Z.of_nat (length t))) in
-  gen_schedule_loop2 mult t (length d) 0 d = sched_done mult t.
+Lemma sched_fin_delays : forall mult t, sched_fin t (delays mult (length t)) = sched_done mult t.
 Proof.
-  intros mult t d. assert (Hd : length d = length t) by (unfold d; rewrite repeat_length; lia).
-  rewrite gen_schedule_loop2_spec by lia. cbn [Z.to_nat firstn app]. rewrite Hd.
-  unfold sched_fin, sched_done, delays. rewrite delays_from_length.
+  intros mult t. unfold sched_fin, sched_done, delays. rewrite delays_from_length.
   destruct t as [|x t]; [reflexivity|]. cbn [length].
   destruct (Z.eqb_spec (Z.of_nat (S (length t))) 0); [lia|]. rewrite Z.eqb_refl. reflexivity.
+Qed.
+
+Lemma delays_from_app : forall mult n i, delays_from mult i (S n) = delays_from mult i n ++ [(mult * (i + Z.of_nat n))%Z].
+Proof.
+  intros mult. induction n as [|n IH]; intros i.
+  - cbn [delays_from app]. do 2 f_equal. lia.
+  - change (delays_from mult i (S (S n))) with ((mult * i)%Z :: delays_from mult (i + 1) (S n)).
+    rewrite IH. cbn [delays_from app]. do 3 f_equal. lia.
 Qed.
 
 Section Sched.
@@ -57,24 +39,88 @@ Section Sched.
   Definition sup_of (o : N) : sup_t :=
     match sup o with Ok false => 0%N | Ok true => 1%N | _ => 2%N end.
 
-  Lemma gen_schedule_loop_spec : forall mult l acc,
-    gen_schedule_loop sup mult l acc =
-    match collect sup_of l with None => Err | Some t => sched_done mult (acc ++ t) end.
-  Proof.
-    intros mult. induction l as [|o l IH]; intros acc; gen_step gen_schedule_loop; cbn [collect].
-    - rewrite app_nil_r. apply gen_schedule_rest_spec.
-    - unfold sup_of at 1. destruct (sup_total o) as [E|[b E]]; rewrite E; [reflexivity|].
-      destruct b; cbn [negb]; rewrite IH; destruct (collect sup_of l); try reflexivity.
-      now rewrite <- app_assoc.
-  Qed.
-
-  (* (a) generated = modelled *)
+  (* (a) generated = modelled.  Two shapes of the Go function are known:
+     A  one function: the filter loop, then a delay slice of the right length filled by index, then the checks;
+     B  the filter loop in a helper that returns (writers, error); the empty check first; delays appended one by one.
+     In both the loops are found through their call markers. *)
   Theorem gen_schedule_eq : forall order mult,
     gen_schedule sup order mult =
     match schedule sup_of order mult with Some p => Ok p | None => Err end.
   Proof.
-    intros order mult. unfold gen_schedule, schedule, sortN. cbv zeta. rewrite gen_schedule_loop_spec.
-    destruct (collect sup_of (sort_by N.leb order)) as [[|x t]|]; reflexivity.
+    intros order mult. gen_open. unfold schedule, sortN.
+    first
+    [ (* ---- A ---- *)
+      lazymatch goal with
+      | |- context [gen_loop2 ?f _ _] =>
+          assert (L : forall l acc, f l acc =
+                        match collect sup_of l with None => Err | Some t => sched_done mult (acc ++ t) end)
+      end;
+      [ induction l as [|o l IH]; intros acc;
+          lazymatch goal with |- ?lhs = _ => let h := gen_head lhs in cbn [h]; cbv zeta end; cbn [collect];
+          [ (* end of the filter loop: the delay loop *)
+            rewrite app_nil_r;
+            lazymatch goal with
+            | |- context [gen_loop3 ?g ?n0 _ ?d0] =>
+                assert (L2 : forall n i d, (0 <= i)%Z -> Z.of_nat (length d) = (i + Z.of_nat n)%Z ->
+                               g n i d = sched_fin acc (firstn (Z.to_nat i) d ++ delays_from mult (i + 1) n));
+                [ induction n as [|n IHn]; intros i d Hi Hlen;
+                    lazymatch goal with |- ?lhs = _ => let h := gen_head lhs in cbn [h]; cbv zeta end;
+                    cbn [delays_from];
+                    [ rewrite app_nil_r, firstn_all2 by lia; reflexivity
+                    | rewrite slice_set_spec by lia;
+                      set (k := Z.to_nat i);
+                      match goal with |- context [firstn k d ++ ?x :: skipn (S k) d] => set (v := x) end;
+                      assert (Hv : v = (mult * (i + 1))%Z) by (unfold v; lia);
+                      assert (Hk : (k < length d)%nat) by (unfold k; lia);
+                      assert (Hfk : length (firstn k d) = k) by (apply firstn_length_le; lia);
+                      rewrite IHn;
+                      [ replace (Z.to_nat (i + 1)) with (S k) by (unfold k; lia);
+                        rewrite firstn_app, Hfk, (firstn_all2 (firstn k d)) by lia;
+                        replace (S k - k)%nat with 1%nat by lia; cbn [firstn];
+                        rewrite <- app_assoc, Hv; reflexivity
+                      | lia
+                      | rewrite app_length, Hfk; cbn [length]; rewrite skipn_length; lia ] ]
+                | unfold gen_loop3; rewrite L2 by (rewrite ?repeat_length; lia);
+                  cbn [Z.to_nat firstn app]; rewrite ?repeat_length, ?Nat2Z.id;
+                  apply sched_fin_delays ]
+            end
+          | unfold sup_of at 1; destruct (sup_total o) as [E|[b E]]; rewrite E; [reflexivity|];
+            destruct b; cbn [negb]; rewrite IH; destruct (collect sup_of l); try reflexivity;
+            now rewrite <- app_assoc ]
+      | unfold gen_loop2; rewrite L;
+        destruct (collect sup_of (sort_by N.leb order)) as [[|x t]|]; reflexivity ]
+    | (* ---- B ---- *)
+      lazymatch goal with
+      | |- context [gen_loop2 ?f _ _] =>
+          assert (L : forall l acc, f l acc =
+                        match collect sup_of l with None => Err | Some t => Ok (acc ++ t) end)
+      end;
+      [ induction l as [|o l IH]; intros acc;
+          lazymatch goal with |- ?lhs = _ => let h := gen_head lhs in cbn [h]; cbv zeta end; cbn [collect];
+          [ now rewrite app_nil_r
+          | unfold sup_of at 1; destruct (sup_total o) as [E|[b E]]; rewrite E; [reflexivity|];
+            destruct b; cbn [negb]; rewrite IH; destruct (collect sup_of l); try reflexivity;
+            now rewrite <- app_assoc ]
+      | unfold gen_loop2 at 1; rewrite L; cbn [app];
+        destruct (collect sup_of (sort_by N.leb order)) as [t|]; [|reflexivity];
+        lazymatch goal with
+        | |- context [gen_loop3 ?g _ _ _] =>
+            assert (L2 : forall l i d, (0 <= i)%Z -> Z.of_nat (length d) = i ->
+                           g l i d = (if negb (Z.eqb (Z.of_nat (length d + length l)) (Z.of_nat (length t))) then Err
+                                      else Ok (t, d ++ delays_from mult (i + 1) (length l))))
+        end;
+        [ induction l as [|x l IH]; intros i d Hi Hd;
+            lazymatch goal with |- ?lhs = _ => let h := gen_head lhs in cbn [h]; cbv zeta end;
+            cbn [length delays_from];
+            [ rewrite app_nil_r, Nat.add_0_r; reflexivity
+            | rewrite IH by (rewrite ?app_length; cbn [length]; lia);
+              rewrite app_length; cbn [length];
+              replace (length d + 1 + length l)%nat with (length d + S (length l))%nat by lia;
+              rewrite <- app_assoc; cbn [app];
+              first [ reflexivity | (repeat f_equal; lia) ] ]
+        | unfold gen_loop3; rewrite L2 by (cbn [length]; lia); cbn [length app Nat.add];
+          unfold delays; destruct t as [|x t]; [reflexivity|]; cbn [length];
+          repeat (gen_case; try solve [exfalso; gen_lin]); try reflexivity; exfalso; lia ] ] ].
   Qed.
 
   (* (b) C16_schedule_order / C16_schedule_members over the generated definition *)
